@@ -48,10 +48,28 @@ def check(case, rec):
             rec.cls("oversize.last")
         if any(0 < i < len(sets_sorted) - 1 for i in oversize):
             rec.cls("oversize.middle")
+    snapshot = [(k, v) for k, v in cfg.items()]
     try:
         blocks = B3.conf_dict_to_tlv(cfg)
     except Exception as e:
         raise Violation("conf_dict_to_tlv raised %s: %s" % (type(e).__name__, e))
+    # the dictionary is the caller's: same entries in the same order afterwards, and a second call on it gives the same blocks; the same
+    # entries inserted in REVERSE order (and with int-subclass / list-free tuple keys) encode identically - only the sorted order counts
+    if [(k, v) for k, v in cfg.items()] != snapshot:
+        raise Violation("conf_dict_to_tlv changed the caller's dictionary: %r -> %r" % (snapshot[:4], list(cfg.items())[:4]))
+    try:
+        again = B3.conf_dict_to_tlv(cfg)
+
+        class _K(int):
+            pass
+
+        rev = B3.conf_dict_to_tlv({(_K(k[0]), k[1] if k[1] is None else _K(k[1])): v for k, v in reversed(snapshot)})
+    except Exception as e:
+        raise Violation("second conf_dict_to_tlv call (same dictionary / reversed insertion order) raised %s: %s" % (type(e).__name__, e))
+    if [bytes(b) for b in again] != [bytes(b) for b in blocks]:
+        raise Violation("conf_dict_to_tlv called twice on the same dictionary gives different blocks")
+    if [bytes(b) for b in rev] != [bytes(b) for b in blocks]:
+        raise Violation("the same entries inserted in reverse order (int-subclass keys) encode differently: %r vs %r" % ([bytes(b).hex() for b in rev][:2], [bytes(b).hex() for b in blocks][:2]))
     # the same dictionary with its contents held in other buffer types (bytearray, memoryview): either the same blocks or a refusal
     # (TypeError / ValueError) - never a silently DIFFERENT encoding
     sets = [k for k, c in cfg.items() if k[1] is not None and c is not None]
@@ -107,13 +125,18 @@ def check(case, rec):
         # the parameter is declared Iterable[bytes]: lists, tuples and ONE-SHOT iterables (generator, iterator) must all work
         how = (len(extra) + sum(len(x) for x in extra) + len(cfg)) % 4
         rec.cls("extra-as=" + ("list", "tuple", "generator", "iterator")[how] if extra else "extra-as=none")
-        f.set_config(cfg, [list(extra), tuple(extra), (x for x in extra), iter(list(extra))][how])
+        ex_list = list(extra)  # when the extras are handed over as a LIST it is the caller's list: it is kept, looked at afterwards and reused
+        f.set_config(cfg, [ex_list, tuple(extra), (x for x in extra), iter(list(extra))][how])
     except Exception as e:
         if unframeable:
             rec.cls("unframeable")
             return
         raise Violation("set_config raised %s: %s" % (type(e).__name__, e))
     comp = f.components[-1]
+    if [(k, v) for k, v in cfg.items()] != snapshot:
+        raise Violation("set_config changed the caller's dictionary")
+    if ex_list != list(extra):
+        raise Violation("set_config changed the caller's LIST of extra blocks: %d blocks before the call, %d after" % (len(extra), len(ex_list)))
     if unframeable:
         rec.cls("unframeable")
         raise Violation("a block of %d bytes cannot be framed in one length byte, but set_config emitted a component (blob %d bytes)" % (max(sizes + [len(x) for x in extra]), len(comp.blob)))
@@ -143,9 +166,11 @@ def check(case, rec):
     rec.cls("edited-created-component=" + ("tag-added", "tag-changed", "tag-removed")[how_edit])
     for where, target in (("another file", sut.Bf3File({}, [])), ("the same file", f)):
         try:
-            target.set_config(cfg, list(extra))
+            target.set_config(cfg, ex_list)  # the SAME list object as before, reused by the caller
         except Exception as e:
             raise Violation("second set_config (%s) raised %s: %s" % (where, type(e).__name__, e))
+        if ex_list != list(extra):
+            raise Violation("set_config (%s) changed the caller's list of extra blocks, reused from an earlier call" % where)
         c2 = target.components[-1]
         if dict(c2.description) != want_desc or list(c2.description) != list(want_desc) or bytes(c2.blob) != want_blob:
             raise Violation("after the caller edited the description of the component an earlier set_config created, set_config on %s creates a component with tags %r (expected %r)" % (
